@@ -39,6 +39,7 @@ type Dataset struct {
 	Layout    int      `json:"layout"`
 	ChunkDims []uint64 `json:"chunk,omitempty"`
 	Info      string   `json:"info"`
+	RefCount  uint32   `json:"refcount"`
 
 	Read        []uint64 `json:"read,omitempty"` // float64 bit patterns
 	ReadErr     string   `json:"read_err,omitempty"`
@@ -276,6 +277,7 @@ func Read(path string, opt Options) *File {
 					d.InfoErr = errStr(err)
 					return
 				}
+				d.RefCount = hdr.GetReferenceCount()
 				info, err := core.ReadDatasetInfo(hdr, hf.Superblock())
 				if err != nil {
 					d.InfoErr = errStr(err)
